@@ -6,13 +6,19 @@ import gen_sql
 B = ["my", "pg", "sl"]
 
 
-def gen_statement_cases(ctx, n, no_marks=True, depth_choices=(1, 2, 2, 3), exprs=0.3, op="stmt"):
+def gen_statement_cases(ctx, n, no_marks=True, depth_choices=(1, 2, 2, 3), exprs=0.3, op="stmt", rich_values=0):
+    """rich_values = k > 0: a pool of k `v:` atoms over every value kind (richvalues.make_value_pool; needs the fa
+    harness, already built when gen_cases runs) is mixed into the values of the generated statements"""
     rng = ctx.rng
     lines = []
     kinds = {}
+    pool = None
+    if rich_values:
+        import richvalues
+        pool = richvalues.make_value_pool(ctx, rng, rich_values)
     for _ in range(n):
         b = rng.choice(B)
-        g = gen_sql.Gen(rng, b, max_depth=rng.choice(depth_choices), no_marks=no_marks)
+        g = gen_sql.Gen(rng, b, max_depth=rng.choice(depth_choices), no_marks=no_marks, value_pool=pool)
         if rng.random() < exprs:
             lines.append("expr %s %s" % (b, g.expr()))
             kinds["expr"] = kinds.get("expr", 0) + 1
@@ -21,6 +27,10 @@ def gen_statement_cases(ctx, n, no_marks=True, depth_choices=(1, 2, 2, 3), exprs
             kinds[q[1:7]] = kinds.get(q[1:7], 0) + 1
             lines.append("%s %s %s" % (op, b, q))
     ctx.cov["distribution"] = {"kinds": kinds}
+    if pool:
+        import richvalues
+        ctx.cov["distribution"]["value_pool_size"] = len(pool)
+        ctx.cov["distribution"]["values"] = richvalues.distribution(lines)
     return lines
 
 
